@@ -1480,8 +1480,13 @@ def p_act( ctx ):
     for c in others:
         h = _inside( src, c, ( ast.ExceptHandler, ), fn )
         empty = any( k.arg == 'data' and is_call_to( k.value, 'dotdict' ) and not k.value.args and not k.value.keywords for k in c.keywords )
+        # ... or the release of the session's state in the connection's `finally` ( an empty request is no request: nothing of a half-received
+        # frame reaches the processor )
+        fin = [ t for t in ast.walk( fn ) if isinstance( t, ast.Try ) and any( c is x for b_ in t.finalbody for x in ast.walk( b_ )) ]
         if h is not None and empty and isinstance( h.body[-1], ast.Raise ):
             res.ok( src, c, 'clean-up call enip_process( addr, data=dotdict() ) in a re-raising handler' )
+        elif fin and empty:
+            res.ok( src, c, 'release of the session\'s state, enip_process( addr, data=dotdict() ), in the connection\'s finally' )
         else:
             res.bad( src, c, c, 'enip_process may only be called with the parsed frame, or with empty data from the failure handler' )
     # frame complete: the engine loop only `continue`s or receives; nothing in it stores into data or calls the processor
@@ -4295,4 +4300,32 @@ def k_direction( ctx ):
                 res.ok( src, a, '%s: a %s field from %s' % ( src.qualname_of( a ), sorted( td )[0], ' and '.join( sorted( vd )) or 'direction-neutral values' ))
     if n < 2:
         raise AnalysisError( 'K-DIRECTION: direction-specific assignments not found (%d)' % n )
+    return res
+
+
+@rule( 'K-RELEASE', props=( 'C08', 'C02', 'C14' ), floor=1 )
+def k_release( ctx ):
+    """however a TCP session ends - EOF between frames, EOF INSIDE a frame, a request that raised, the simulator ending it with an error status -
+    the processor is told so ( enip_process( addr, data=<empty> )) and releases what it holds for the peer ( its Forward Opens ): the call sits
+    in the `finally` of the connection handler - the one place every way out passes - and cannot keep the connection from being closed."""
+    res = Result( 'K-RELEASE' )
+    src = ctx.src( MAIN )
+    fn = src.get( 'enip_srv_tcp' )
+    closers = [ t for t in ast.walk( fn ) if isinstance( t, ast.Try ) and any( isinstance( c, ast.Call ) and isinstance( c.func, ast.Attribute ) and c.func.attr == 'close' and dotted( c.func.value ) == fn.args.args[0].arg
+                                                                               for b in t.finalbody for c in ast.walk( b )) ]
+    if not closers:
+        raise AnalysisError( 'enip_srv_tcp: the try whose finally closes the connection not found' )
+    t = closers[0]
+    rel = [ c for b in t.finalbody for c in ast.walk( b ) if is_call_to( c, 'enip_process' )
+            and any( k.arg == 'data' and is_call_to( k.value, 'dotdict', 'cpppo.dotdict', 'dict' ) and not k.value.args and not k.value.keywords for k in c.keywords ) ]
+    if not rel:
+        res.bad( src, t, 'enip_srv_tcp: the session\'s state is released ( enip_process( addr, data=dotdict() )) on some ways out only, not in the finally',
+                 'a session that ends inside a frame, or that the simulator ends with an error status, leaves its Forward Opens in Connection_Manager.forwards for the life of the process: entries accumulate, and a later connection from the same address and port inherits the connection' )
+        return res
+    guarded = all( any( isinstance( a, ast.Try ) and any( c is x for b_ in a.body for x in ast.walk( b_ )) and any( h.type is None or dotted( h.type ) in ( 'Exception', 'BaseException' ) for h in a.handlers )
+                        and not any( isinstance( r, ast.Raise ) for h in a.handlers for r in ast.walk( h )) for a in src.ancestors( c )) for c in rel )
+    if guarded:
+        res.ok( src, rel[0], 'every way out of a TCP session tells the processor ( empty request ) - in the finally, absorbed so that the connection is still closed' )
+    else:
+        res.bad( src, rel[0], 'enip_srv_tcp: the release in the finally may raise ahead of conn.close()', 'a failing clean-up must not keep the connection open or its statistics entry alive' )
     return res
